@@ -24,12 +24,14 @@ EXCLUDED_DIRS = {"test": "test-suite, not shipped behaviour", "__pycache__": "by
 
 
 class Module(object):
-    def __init__(self, name, path, is_pkg):
+    def __init__(self, name, path, is_pkg, src=None):
         self.name = name
         self.path = path
         self.is_pkg = is_pkg
-        with open(path, "rb") as f:
-            self.src = f.read()
+        if src is None:
+            with open(path, "rb") as f:
+                src = f.read()
+        self.src = src if isinstance(src, bytes) else src.encode()
         self.tree = ast.parse(self.src, filename=path)
         self.env = {}          # static bindings: name -> FuncV | ClassV | ("import", mod, name) | ("assign",) | ExtV | ModV
         self.globals = {}      # values after abstract import (filled by the evaluator)
@@ -49,13 +51,22 @@ class Module(object):
 class World(object):
     """The parsed package."""
 
-    def __init__(self, root=None, pkg="spake2"):
+    def __init__(self, root=None, pkg="spake2", sources=None):
         self.root = root or repo_root()
         self.pkg = pkg
         self.pkgdir = os.path.join(self.root, "src", pkg)
         self.mods = {}
         self.excluded = []
         self.excluded_mods = set()
+        self.static = None
+        if sources is not None:
+            # in-memory package (positive-control fixtures of zero-count rules)
+            for name, src in sources.items():
+                is_pkg = name == pkg
+                path = os.path.join(self.pkgdir, *(name.split(".")[1:] + (["__init__.py"] if is_pkg else []))) + ("" if is_pkg else ".py")
+                self.mods[name] = Module(name, path, is_pkg, src=src)
+            self._finish_init()
+            return
         if not os.path.isdir(self.pkgdir):
             raise AnalysisError("package directory %s not found" % self.pkgdir)
         for dp, dn, fn in os.walk(self.pkgdir):
@@ -80,6 +91,9 @@ class World(object):
                     self.mods[name] = Module(name, p, is_pkg)
                 except SyntaxError as e:
                     raise AnalysisError("cannot parse %s: %s" % (p, e))
+        self._finish_init()
+
+    def _finish_init(self):
         for m in self.mods.values():
             self._bind(m)
         for m in self.mods.values():
